@@ -189,6 +189,96 @@ pub fn c02(tier: Tier) -> i32 {
             }
         }
     });
+    // honest sessions with local mistakes: before every step a failing call (write into a buffer one byte
+    // short / read of the message with its last bit flipped / read into an empty payload buffer), then the
+    // genuine step - the session must still complete and agree (Kyber keys are fresh per attempt, so only
+    // completion and agreement are judged, not bytes)
+    names.par_iter().for_each(|(name, psks, base)| {
+        ctx.add(&ctx.evaluations, 1);
+        let r = catch_unwind(AssertUnwindSafe(|| -> Result<(), String> {
+            let n = base_patterns().into_iter().find(|p| &p.name == base).unwrap().msgs.len();
+            let mut buf = vec![0u8; 65535];
+            let mut out = vec![0u8; 65535];
+            // message lengths are fixed by the name: learn them from a clean session first
+            let lens: Vec<usize> = {
+                let (mut i, mut r) = build_pair(name, psks, base)?;
+                let mut v = vec![];
+                for k in 0..n {
+                    let (w, rd) = if k % 2 == 0 { (&mut i, &mut r) } else { (&mut r, &mut i) };
+                    let l = w.write_message(b"hfs-payload", &mut buf).map_err(|e| format!("clean write {k}: {e:?}"))?;
+                    rd.read_message(&buf[..l], &mut out).map_err(|e| format!("clean read {k}: {e:?}"))?;
+                    v.push(l);
+                }
+                v
+            };
+            let (mut i, mut r) = build_pair(name, psks, base)?;
+            for k in 0..n {
+                let (w, rd) = if k % 2 == 0 { (&mut i, &mut r) } else { (&mut r, &mut i) };
+                let mut probe = vec![0u8; 65535];
+                let l = {
+                    // failing attempts first: every buffer from empty up to one byte short, at a spread of sizes
+                    // (fails at the first token, in the middle of the Kyber fields, and at the payload)
+                    let need = lens[k];
+                    let mut caps = vec![0usize, 5, 31, 32, 48, need / 2, need.saturating_sub(17), need - 12, need - 1];
+                    caps.retain(|c| *c < need);
+                    caps.dedup();
+                    for cap in caps {
+                        let mut small = vec![0u8; cap];
+                        if w.write_message(b"hfs-payload", &mut small).is_ok() {
+                            return Err(format!("write {k} succeeded into {cap} bytes although the message needs {need}"));
+                        }
+                    }
+                    let l = w.write_message(b"hfs-payload", &mut probe).map_err(|e| format!("write {k} after failed attempts: {e:?}"))?;
+                    if l != need {
+                        return Err(format!("write {k} after failed attempts produced {l} bytes, a clean session {need}"));
+                    }
+                    l
+                };
+                buf[..l].copy_from_slice(&probe[..l]);
+                let mut bad = buf[..l].to_vec();
+                bad[l - 1] ^= 1;
+                // a message too short for its fixed fields always fails; from the second message on every
+                // pattern has mixed a DH result, so a flipped bit must fail as well (the first message may be unkeyed)
+                if rd.read_message(&buf[..10], &mut out).is_ok() {
+                    return Err(format!("read {k} accepted a 10-byte message"));
+                }
+                if k >= 1 && rd.read_message(&bad, &mut out).is_ok() {
+                    return Err(format!("read {k} accepted a message with its last bit flipped"));
+                }
+                if k >= 1 {
+                    for cut in [l - 1, l - 12, l / 2, 48, 33] {
+                        if cut < l && rd.read_message(&buf[..cut], &mut out).is_ok() {
+                            return Err(format!("read {k} accepted the message truncated to {cut} of {l} bytes"));
+                        }
+                    }
+                    let mut mid = buf[..l].to_vec();
+                    mid[l / 2] ^= 0x40;
+                    if rd.read_message(&mid, &mut out).is_ok() {
+                        return Err(format!("read {k} accepted the message with a bit flipped in the middle"));
+                    }
+                }
+                if rd.read_message(&buf[..l], &mut out[..0]).is_ok() {
+                    return Err(format!("read {k} succeeded into an empty payload buffer"));
+                }
+                let m = rd.read_message(&buf[..l], &mut out).map_err(|e| format!("read {k} of the genuine message after failed reads: {e:?}"))?;
+                if &out[..m] != b"hfs-payload" {
+                    return Err(format!("payload {k} not returned intact"));
+                }
+            }
+            if i.get_handshake_hash() != r.get_handshake_hash() {
+                return Err("handshake hashes differ".into());
+            }
+            let (mut ti, mut tr) = (i.into_transport_mode().map_err(|e| format!("{e:?}"))?, r.into_transport_mode().map_err(|e| format!("{e:?}"))?);
+            let l = ti.write_message(b"ping", &mut buf).map_err(|e| format!("{e:?}"))?;
+            tr.read_message(&buf[..l], &mut out).map_err(|e| format!("transport read: {e:?}"))?;
+            Ok(())
+        }));
+        match r {
+            Ok(Ok(())) => ctx.add(&ctx.nontrivial, 1),
+            Ok(Err(e)) => ctx.violation("hfs build: an hfs session with local failing calls and retries does not complete and agree", format!("{name}: {e}"), json!({"kind": "hfs-retry", "name": name})),
+            Err(p) => ctx.violation(format!("hfs build: hfs session with retries panicked ({})", panic_msg(p)), name.clone(), json!({"kind": "hfs-retry", "name": name})),
+        }
+    });
     // hfs with a one-way pattern is invalid and must be rejected with an error at build time
     for p in ["N", "K", "X"] {
         let name = format!("Noise_{p}hfs_25519+Kyber1024_ChaChaPoly_SHA256");
